@@ -395,12 +395,14 @@ def _child_is_wrapper_name(child: Node) -> bool:
         child: Child node of a call_expression
 
     Returns:
-        True if the child is an identifier or scoped_identifier matching a wrapper name
+        True if the child is an identifier, scoped_identifier or method name matching a wrapper name
     """
     if child.type == "identifier":
         return _node_text_matches_wrapper(child)
     if child.type == "scoped_identifier":
         return _scoped_name_matches_wrapper(child)
+    if child.type == "field_expression":
+        return _method_name_matches_wrapper(child)
     return False
 
 
@@ -408,6 +410,14 @@ def _node_text_matches_wrapper(node: Node) -> bool:
     """Check if a node's text matches a wrapper function name."""
     text = node.text
     return text is not None and text.decode() in _ASYNC_WRAPPER_FUNCTIONS
+
+
+def _method_name_matches_wrapper(field_expr: Node) -> bool:
+    """Check if a method call (e.g. handle.spawn_blocking(...)) names a wrapper function."""
+    return any(
+        child.type == "field_identifier" and _node_text_matches_wrapper(child)
+        for child in field_expr.children
+    )
 
 
 def _scoped_name_matches_wrapper(node: Node) -> bool:
